@@ -99,7 +99,7 @@ NativeBody(n, v) ==
     [] OTHER -> v.b         \* float double text ascii blob uuid timeuuid inet: the bytes
 
 Cell(T, v) ==
-  CASE v.k = "null" -> NullLen
+  CASE v.k \in {"null", "absent"} -> NullLen        \* a UDT field the value does not list is sent as null
     [] v.k = "unset" -> UnsetLen
     [] v.k = "empty" -> <<0, 0, 0, 0>>
     [] OTHER -> S1(Body(T, v), LAMBDA b : Int32(Len(b)) \o b)
@@ -116,7 +116,7 @@ Body(T, v) ==
 
 Null == [k |-> "null"]
 Pad(T, v) ==
-  IF v.k \in {"null", "unset", "empty"} THEN (IF v.k = "unset" THEN v ELSE v)
+  IF v.k = "absent" THEN Null ELSE IF v.k \in {"null", "unset", "empty"} THEN v
   ELSE CASE T.k = "native" -> v
     [] T.k \in {"list", "set", "vector"} -> [k |-> "seq", vs |-> [i \in 1..Len(v.vs) |-> Pad(T.e, v.vs[i])]]
     [] T.k = "map" -> [k |-> "map", kvs |-> [i \in 1..Len(v.kvs) |-> <<Pad(T.a, v.kvs[i][1]), Pad(T.b, v.kvs[i][2])>>]]
